@@ -281,7 +281,7 @@ MQ = dict(precs=PRECS_EL, regime="metamorphic")
 reg("besselj_int", "besselj", lambda c, n, x: c.besselj(n, M(c, x)), r_besselj_int, lambda rng, p: [rng.randint(-4, 12), g_xs(rng)], w=1.5, regime="integral", **IQ)
 reg("besselj_int_small", "besselj", lambda c, n, x: c.besselj(n, M(c, x)), gen=lambda rng, p: [rng.choice([rng.randint(0, 3), rng.randint(4, 16), rng.randint(4, 16)]), Fraction(rng.randint(1, 255), 2 ** rng.randint(10, 36))],
     build=b_besselj_small, w=2.5, regime="small-argument-series", **EL)
-reg("besseli_int", "besseli", lambda c, n, x: c.besseli(n, M(c, x)), r_besseli_int, lambda rng, p: [rng.randint(-3, 10), g_xs(rng, 20)], w=1.2, regime="integral", **IQ)
+reg("besseli_int", "besseli", lambda c, n, x: c.besseli(n, M(c, x)), r_besseli_int, lambda rng, p: [rng.randint(-3, 8), g_xs(rng, 10)], w=1.2, regime="integral", **IQ)
 reg("angerj", "angerj", lambda c, v, x: c.angerj(M(c, v), M(c, x)), r_angerj, lambda rng, p: [g_nonint_order(rng), g_xs(rng, 12)], w=0.6, regime="integral", **IQ)
 reg("webere", "webere", lambda c, v, x: c.webere(M(c, v), M(c, x)), r_webere, lambda rng, p: [g_order(rng), g_xs(rng, 12)], w=0.6, regime="integral", **IQ)
 reg("struveh", "struveh", lambda c, n, x: c.struveh(n, M(c, x)), r_struveh, lambda rng, p: [rng.randint(0, 2), abs(g_xs(rng, 20))], w=0.6, regime="integral", **IQ)
@@ -306,7 +306,7 @@ reg("besselyzero_half", "besselyzero", lambda c, s, m: c.besselyzero(M(c, Fracti
     lambda s, m: PI * m if s == -1 else PI * C(Fraction(2 * m - 1, 2)), lambda rng, p: [1, rng.choice([rng.randint(1, 8), rng.randint(9, 200)])],
     w=0.8, regime="zero-closed-form", **EL)
 reg("besseljzero_int", "besseljzero", lambda c, n, m: c.besseljzero(n, m), gen=lambda rng, p: [rng.randint(0, 6), rng.randint(1, 6)], build=b_jzero_int,
-    w=1.0, regime="zero-sign-change", precs=[20, 53], params=iparams)
+    w=0.7, regime="zero-sign-change", precs=[20, 20, 53], params=iparams)
 
 for _fn, _pat, _w in (("besselj", (1, 1), 1.5), ("bessely", (1, 1), 1.2), ("besseli", (1, -1), 1.0), ("besselk", (-1, 1), 1.0)):
     reg("m_rec_" + _fn, "%s(v-1,x) & %s(v+1,x) & %s(v,x)" % (_fn, _fn, _fn),
